@@ -233,6 +233,8 @@ impl TypeChecker {
     }
 
     fn check_field_assignment(&mut self, field_assign: &FieldAssignmentStmt, span: Span) {
+        // Assigning a field mutates the variable the object is rooted in.
+        self.require_mutable_root(&field_assign.object, span);
         // Check the object expression
         let obj_ty = self.check_expr(&field_assign.object);
         // Check the value expression
@@ -304,6 +306,8 @@ impl TypeChecker {
     }
 
     fn check_index_assignment(&mut self, index_assign: &IndexAssignmentStmt, span: Span) {
+        // Assigning an element mutates the variable the collection is rooted in.
+        self.require_mutable_root(&index_assign.object, span);
         // Check the object expression (should be a collection)
         let obj_ty = self.check_expr(&index_assign.object);
         // Check the index expression
@@ -539,9 +543,11 @@ impl TypeChecker {
             scope: 0,
         });
 
+        self.loop_variables.push(for_stmt.var.clone());
         for stmt in &for_stmt.body {
             self.check_statement(stmt);
         }
+        self.loop_variables.pop();
         self.symbols.exit_scope();
     }
 
